@@ -111,8 +111,18 @@ func c10Run(c *Ctx) {
 	harness.LogDefault()
 	harness.Pristine()
 	e := harness.EntryByName("jpeg.ScanJPEG")
-	r := newReader(c.Dev, j.Bytes, Fault{}, d)
+	// the marker stream may be the rest of a larger stream (a JPEG inside a container): the caller
+	// has read, or skipped with Seek, what comes before; offsets are counted from where the scan starts
+	content := j.Bytes
 	env := spec.New(c.Dev)
+	if x := c.L("dev:0:x"); x.Chance(1, 5) {
+		n := []int{1, 50, 512, 4096, 5000}[x.Intn(5)] + x.Intn(30)
+		content = append(gen.ScreenTIFF(x.Sub().Bytes(n)), j.Bytes...)
+		env.Prepos, env.PreposSeek = n, x.Bool()
+		c.Descf("%d bytes taken from the stream before the scan (by seek: %v)", n, env.PreposSeek)
+		c.Inc("probe:scan-starts-midstream")
+	}
+	r := newReader(c.Dev, content, Fault{}, d)
 	res := invoke(c, e, env, r)
 	if c.PlanOnly {
 		return
